@@ -108,7 +108,8 @@ void h_run(Case &c) {
   require_wf(c, r, "reloaded topology");
   // equivalence of everything listed in the statement
   unsigned what = DUMP_GP | DUMP_EXTRAS;
-  std::string df = first_diff(dump_topology(t, what), dump_topology(r, what));
+  bool stale_ccs = memchild_ccs_stale(t); if (stale_ccs) { c.excluded("F-C18-a"); c.cls("excluded:F-C18-a(stale complete_cpuset of a memory object)"); }
+  std::string df = stale_ccs ? first_diff(mask_mem_ccs(dump_topology(t, what)), mask_mem_ccs(dump_topology(r, what))) : first_diff(dump_topology(t, what), dump_topology(r, what));
   if (!df.empty() && getenv("VERIF_DUMP_DIR")) { std::string dd = getenv("VERIF_DUMP_DIR"); FILE *f = fopen((dd + "/orig.txt").c_str(), "w"); fputs(dump_topology(t, what).c_str(), f); fclose(f); f = fopen((dd + "/reload.txt").c_str(), "w"); fputs(dump_topology(r, what).c_str(), f); fclose(f); f = fopen((dd + "/x1.xml").c_str(), "w"); fputs(X1.c_str(), f); fclose(f); }
   CHECK(c, df.empty(), "reload_equal", "the reloaded topology differs from the exported one: %s", df.c_str());
   // userdata delivered exactly as exported
@@ -121,7 +122,12 @@ void h_run(Case &c) {
   hwloc_topology_set_userdata_export_callback(r, exp_cb);
   std::string X2 = xml_of(c, r, 0, false);
   if (viafile) { /* file and buffer exports have the same bytes */ std::string X1b = xml_of(c, t, 0, false); CHECK(c, X1b == X1, "file_vs_buffer", "file export differs from buffer export %s", byte_diff(X1, X1b).c_str()); }
-  if (impsup) CHECK(c, X2 == X1, "fixpoint", "re-export of the reloaded topology is not byte-identical %s", byte_diff(X1, X2).c_str());
+  if (stale_ccs) { /* the first generation holds the stale field, the second the recomputed one: the fixpoint starts one generation later */
+    hwloc_topology_t r2 = reload(c, X2, sp.flags | (impsup ? HWLOC_TOPOLOGY_FLAG_IMPORT_SUPPORT : 0), false, true); hwloc_topology_set_userdata_export_callback(r2, exp_cb);
+    { auto va = all_objs(r), vb = all_objs(r2); for (size_t i = 0; i < va.size() && i < vb.size(); i++) { UD *a = (UD *)va[i]->userdata, *b = (UD *)vb[i]->userdata; if (a && b) for (size_t k = 0; k < a->items.size() && k < b->items.size(); k++) b->b64[k] = a->b64[k]; } }
+    std::string X3 = xml_of(c, r2, 0, false); if (impsup) CHECK(c, X3 == X2, "fixpoint", "third generation export is not byte-identical %s", byte_diff(X2, X3).c_str()); else CHECK(c, strip_support(X3) == strip_support(X2), "fixpoint", "third generation export differs (modulo <support/>) %s", byte_diff(strip_support(X2), strip_support(X3)).c_str());
+    for (auto o : all_objs(r2)) delete (UD *)o->userdata; hwloc_topology_destroy(r2); }
+  else if (impsup) CHECK(c, X2 == X1, "fixpoint", "re-export of the reloaded topology is not byte-identical %s", byte_diff(X1, X2).c_str());
   else { std::string a = strip_support(X1), b = strip_support(X2); CHECK(c, a == b, "fixpoint", "re-export differs (modulo <support/>) %s", byte_diff(a, b).c_str());
     hwloc_topology_t r2 = reload(c, X2, sp.flags, false, true); hwloc_topology_set_userdata_export_callback(r2, exp_cb);
     { auto va = all_objs(r), vb = all_objs(r2); for (size_t i = 0; i < va.size() && i < vb.size(); i++) { UD *a = (UD *)va[i]->userdata, *b = (UD *)vb[i]->userdata; if (a && b) for (size_t k = 0; k < a->items.size() && k < b->items.size(); k++) b->b64[k] = a->b64[k]; } }   // export with the same encoding choices std::string X3 = xml_of(c, r2, 0, false); CHECK(c, X3 == X2, "fixpoint", "third generation export is not byte-identical %s", byte_diff(X2, X3).c_str());
@@ -130,7 +136,7 @@ void h_run(Case &c) {
   { std::string V2 = xml_of(c, t, HWLOC_TOPOLOGY_EXPORT_XML_FLAG_V2, false); hwloc_topology_t q = reload(c, V2, sp.flags, false, false); require_wf(c, q, "v2 reload");
     auto v1 = all_objs(t), v2 = all_objs(q); CHECK(c, v1.size() == v2.size(), "v2_reload", "object count %zu vs %zu", v1.size(), v2.size());
     for (size_t i = 0; i < v1.size(); i++) { CHECK(c, v1[i]->type == v2[i]->type && v1[i]->os_index == v2[i]->os_index, "v2_reload", "object %zu differs (%s vs %s)", i, hwloc_obj_type_string(v1[i]->type), hwloc_obj_type_string(v2[i]->type));
-      if (v1[i]->cpuset) CHECK(c, v2[i]->cpuset && hwloc_bitmap_isequal(v1[i]->cpuset, v2[i]->cpuset) && hwloc_bitmap_isequal(v1[i]->nodeset, v2[i]->nodeset) && hwloc_bitmap_isequal(v1[i]->complete_cpuset, v2[i]->complete_cpuset) && hwloc_bitmap_isequal(v1[i]->complete_nodeset, v2[i]->complete_nodeset), "v2_reload", "sets of %s#%u differ", hwloc_obj_type_string(v1[i]->type), v1[i]->logical_index); }
+      if (v1[i]->cpuset) CHECK(c, v2[i]->cpuset && hwloc_bitmap_isequal(v1[i]->cpuset, v2[i]->cpuset) && hwloc_bitmap_isequal(v1[i]->nodeset, v2[i]->nodeset) && ((stale_ccs && hwloc_obj_type_is_memory(v1[i]->type)) || hwloc_bitmap_isequal(v1[i]->complete_cpuset, v2[i]->complete_cpuset)) && hwloc_bitmap_isequal(v1[i]->complete_nodeset, v2[i]->complete_nodeset), "v2_reload", "sets of %s#%u differ", hwloc_obj_type_string(v1[i]->type), v1[i]->logical_index); }
     hwloc_topology_destroy(q); }
   // classification
   { unsigned nr = 0; hwloc_distances_get(t, &nr, NULL, 0, 0); if (nr) { nt = true; c.cls("has:distances"); } }
